@@ -412,8 +412,9 @@ class C05(Engine):
             hdr = header42("nest.c").split("\n")
             tops["header_unclosed_banner"] = "\n".join(hdr[:10]) + "\n" + "/* c */\n" * min(n, 400) + "int\tg_a;\n"
             tops["header_twice_banner"] = "\n".join(hdr[:10]) + "\n" + "\n".join(hdr[:10]) + "\n" + frame * 30 + "int\tg_a;\n"
-            m = n // 4          # these three are quadratic (or worse) in the code under test: a smaller n keeps the runs conclusive
+            m = n // 8          # these three are quadratic (or worse) in the code under test: a smaller n keeps the runs conclusive
             tops["ifdef_nest"] = "".join(f"#{' ' * min(k, 200)}ifdef A{k}\n" for k in range(m)) + "int\tg_a;\n" + "".join(f"#{' ' * min(m - 1 - k, 200)}endif\n" for k in range(m))
+            m = n // 12         # cubic: far below the CPU-time backstop, whose verdict must not depend on the load of the machine
             tops["struct_nest"] = "".join(f"{tabs(k)}struct s_{k}\n{tabs(k)}{{\n" for k in range(m)) + f"{tabs(m)}int\ta;\n" + "".join(f"{tabs(m - 1 - k)}}}\tm{k};\n" for k in range(m))
             tops["fnptr_nest"] = "int\t" + "(*" * m + "g_f" + ")(void)" * m + ";\n"
             for name, body in tops.items():
